@@ -318,11 +318,75 @@ def gen_sources(unit, external_all=False, canary=None):
         helpers += out["helpers"]
         for k in ("log", "warnings", "errors", "items"):
             meta[k] += out[k]
+        meta.setdefault("matches", [])
+        meta["matches"] += out.get("matches", [])
         for f in out["fns"]:
             f["file"] = src["rel"]
             f["unit"] = unit["name"]
             meta["fns"].append(f)
     return text, helpers, meta
+
+
+def _wname(w):
+    """name of the word constant of a literal (same function as tools/gen_lang.py::wname)"""
+    o = ""
+    for ch in w:
+        o += ch if (ch.isascii() and ch.isalnum()) else "_u%04x" % ord(ch)
+    return o or "_empty"
+
+
+def reorder_model(prelude, c, matches, log):
+    """The arm-level model `<c>_status` is an if-chain in the order of the frozen table. Arms over DISJOINT sets of literal words
+    commute (at most one of them can match a given word, whatever their guards), so when the code's `match` lists the same arms
+    in another order the chain is emitted in the code's order: the function is the same, and the table proof does not have to
+    know that the words differ (which the solver can only be told at a prohibitive cost for fr/es/pt/it).
+    Nothing is reordered when an arm was added, removed or changed, or when two arms that share a word changed places: then the
+    frozen order stays and the proof decides."""
+    m = re.search(r"(?m)^#\[verifier::opaque\] pub open spec fn %s_status\([^\n]*\{\n" % c, prelude)
+    if not m:
+        return prelude
+    start = m.end()
+    lines = []
+    pos = start
+    while True:
+        e = prelude.index("\n", pos)
+        ln = prelude[pos:e]
+        if re.match(r"\s*(else )?if \(", ln):
+            lines.append(ln)
+            pos = e + 1
+        else:
+            break
+    model_sets = [frozenset(re.findall(r"l == (w_\w+)\(\)", ln)) for ln in lines]
+    if not lines or any(len(x) == 0 for x in model_sets):
+        return prelude
+    # the code's table: the literal match with the most arms
+    cand = [mm for mm in matches if len(mm["arms"]) >= max(8, len(lines) // 2)]
+    if not cand:
+        return prelude
+    mm = max(cand, key=lambda x: len(x["arms"]))
+    arms = mm["arms"]
+    if any(a is None for a in arms[:-1]):
+        return prelude
+    if arms and arms[-1] is None:
+        arms = arms[:-1]
+    code_sets = [frozenset("w_" + _wname(w) for w in a) for a in arms]
+    if len(code_sets) != len(model_sets) or sorted(map(sorted, code_sets)) != sorted(map(sorted, model_sets)) or len(set(code_sets)) != len(code_sets):
+        return prelude
+    if code_sets == model_sets:
+        return prelude
+    pos_in_model = {st: i for i, st in enumerate(model_sets)}
+    perm = [pos_in_model[st] for st in code_sets]
+    # arms whose relative order changed must not share a word
+    for a in range(len(perm)):
+        for b in range(a + 1, len(perm)):
+            if perm[a] > perm[b] and (model_sets[perm[a]] & model_sets[perm[b]]):
+                return prelude
+    new = []
+    for k, i in enumerate(perm):
+        body = re.sub(r"^(\s*)(else )?if \(", lambda x: x.group(1) + ("if (" if k == 0 else "else if ("), lines[i], count=1)
+        new.append(body)
+    log.append("model: arms of %s_status emitted in the order of the code's match at line %d (%d arms; arms over disjoint words commute)" % (c, mm["line"], len(perm)))
+    return prelude[:start] + "\n".join(new) + "\n" + prelude[pos:]
 
 
 def gen_unit(name, canary=False, outname=None):
@@ -364,7 +428,10 @@ def gen_unit(name, canary=False, outname=None):
         meta_all["imported_fns"] += m["fns"]
     t, h, m = gen_sources(unit, canary=({} if canary else None))
     parts.append(f"// ======== unit `{name}`: spec prelude ========\n")
-    parts.append(unit["prelude"])
+    prel_own = unit["prelude"]
+    if name.startswith("lang_"):
+        prel_own = reorder_model(prel_own, name[len("lang_"):], m.get("matches", []), m["log"])
+    parts.append(prel_own)
     parts.append(f"// ======== unit `{name}`: extracted code ========\n")
     parts.append(t)
     if h:
